@@ -128,7 +128,8 @@ CHECKS.update({
     "C13": {
         "level": "model_checking",
         "text": "Frozen synonym tables (spec/Lexicon.tla): every member of every class in two spacing variants through the rule lexer and the alias lexer against the canonical spelling; rules of the full "
-                "grammar with two independent respellings of every synonym-bearing token and respelled words: outcomes (words or error variant) must be equal.",
+                "grammar with two independent respellings of every synonym-bearing token and respelled words: outcomes (words or error variant) must be equal. Systematic strata: every alpha letter (Greek and Latin) in three rule shapes; every multi-character "
+                "base phone x tie bar / ^ / ^ at an implicit-tie position x each input alias of its letters.",
         "note": BASE_NOTE + " Letter case is not varied (a capital before a feature name is an alpha, so upper-case spellings are ambiguous by design).",
         "technique": "frozen TLA+ synonym tables enumerated by TLC; spec->impl replay of respelling pairs through both lexers",
     },
@@ -157,14 +158,14 @@ CHECKS.update({
     "C19": {
         "level": "model_checking",
         "text": "spec/Cli.tla models the file readers/writers; mc/MC_Cli proves that the round trip holds exactly on the well-formed projects; TLC enumerates every sequence of <= 5 rule-file / alias-file lines "
-                "and <= 3 word-file lines with what the readers make of it, and the real binary (conv asca, run -o, conv json round trip with explicit and default paths) is compared with it and with asca::run.",
+                "and <= 3 word-file lines with what the readers make of it, and the real binary (conv asca, run -o on the rule-file and on the word-file sequences, conv json round trip with explicit and default paths) is compared with it and with asca::run.",
         "note": "Trusted: TLC; the binary is built from /repo's working tree; fixed strings instantiate abstract line contents. Quick samples 1/40 of the line sequences.",
         "technique": "TLC model checking of reader/writer round trip; spec->impl replay of line sequences through the real binary",
     },
     "C20": {
         "level": "model_checking",
         "text": "mc/MC_Seq is the resolver with call stack and cache as an explicit machine under the free interpretation of the stage functions: validator accepts iff acyclic and no dangling reference, every "
-                "delivered result is the composition along the chain for every request order, termination. Seeded 4-tag configs (chains, forks, cycles, filters in mixed case, extra word files, every "
+                "delivered result is the composition along the chain for every request order, termination. Seeded 4-tag configs (chains, forks, cycles, ! and ~ filters in mixed case on first, middle and several groups of rule files whose groups do not commute, extra word files, every "
                 "declaration order) are materialised and the real `asca seq`, `-t`, `conv tag -r` compared with the plan executed through asca::run.",
         "note": "Trusted: TLC; the binary is built from /repo's working tree; rule files and words are fixed real texts.",
         "technique": "TLC model checking of the resolver/cache machine (free interpretation); spec->impl replay of project configs through the real binary",
